@@ -245,6 +245,8 @@ def gen_point(rng, nv, mode=None):
         return [float(rng.randint(-5, 5)) for _ in range(nv)]
     if mode == "float":
         return [rng.uniform(-100, 100) for _ in range(nv)]
+    if mode == "big":
+        return [rng.choice([1.0, -1.0, 2.5, -0.75]) * 10.0 ** rng.choice([8, 15, 16, 20, 30, 40]) for _ in range(nv)]
     if mode == "tiny":
         return [rng.choice([0.0, 1e-16, -1e-16, 5e-16, 1e-15, 2e-15, -3e-15, 1e-300, 4e-320]) for _ in range(nv)]
     return [rng.choice([1.0, -1.0, 2.5]) * 10.0 ** rng.choice([20, 50, 100, 150, 200, 300, -200]) for _ in range(nv)]
@@ -292,9 +294,10 @@ def place(rng, mode, f, tol, rel):
     return None
 
 
-TOL_CHOICES = [None, None, None, None, None, None, {"tol": 0.25, "rel": 0.0}, {"tol": 0.0, "rel": 0.0},
-               {"tol": 2.0 ** -10, "rel": 2.0 ** -10}, {"tol": 0.5, "rel": 0.5}, {"tol": 1e-08, "rel": 1e-08},
-               {"tol": 0.0, "rel": 2.0 ** -20}, {"tol": 0.125}, {"rel": 0.25}, {"tol": -1.0}, {"rel": -0.5, "tol": 1.0}]
+TOL_CHOICES = [None] * 14 + [{"tol": 0.25, "rel": 0.0}, {"tol": 0.0, "rel": 0.0}, {"tol": 2.0 ** -10, "rel": 2.0 ** -10},
+                              {"tol": 0.5, "rel": 0.5}, {"tol": 1e-08, "rel": 1e-08}, {"tol": 0.0, "rel": 2.0 ** -20}, {"tol": 0.125},
+                              {"rel": 0.25}, {"tol": 1e-12, "rel": 1e-12}, {"tol": 3.0, "rel": 0.0}, {"tol": 0.0},
+                              {"tol": -1.0}, {"rel": -0.5, "tol": 1.0}]
 
 
 def tolrel(tl):
